@@ -127,6 +127,9 @@ fn run_scenario(sc: &Scenario, scenario_path: Option<&str>) -> RunResult {
         if !consumed.is_empty() {
             cmd.arg("--consumed").arg(consumed.iter().map(|c| c.to_string()).collect::<Vec<_>>().join(","));
         }
+        if std::env::var_os("SIM_TRACE").is_some() {
+            cmd.stderr(std::process::Stdio::inherit());
+        }
         let out = cmd.output().expect("spawn segment");
         let code = out.status.code();
         if code == Some(86) {
@@ -146,6 +149,30 @@ fn run_scenario(sc: &Scenario, scenario_path: Option<&str>) -> RunResult {
             // the Crash marker that armed this death is consumed
             if let Some(k) = sc.ops.iter().enumerate().skip(from).find(|(i, o)| matches!(o, Op::Crash { .. }) && !consumed.contains(i)).map(|(i, _)| i) {
                 consumed.push(k);
+            }
+            // power-loss flavour of a death inside a freeze pass: part of what the freezer files
+            // gained since the pass began (none of it fsynced) is lost
+            let torn = dir.join("torn.json");
+            if let Ok(text) = std::fs::read_to_string(&torn) {
+                let base: Vec<(String, u64)> = serde_json::from_str(&text).unwrap_or_default();
+                let mut rng = simcore::Rng::new(sc.seed ^ 0x7042_0000 ^ (consumed.len() as u64) << 8);
+                let mut names: Vec<String> = std::fs::read_dir(dir.join("ancient")).map(|rd| rd.flatten().filter(|e| e.metadata().map(|m| m.is_file()).unwrap_or(false)).map(|e| e.file_name().to_string_lossy().to_string()).collect()).unwrap_or_default();
+                names.sort();
+                for name in names {
+                    let p = dir.join("ancient").join(&name);
+                    let cur = std::fs::metadata(&p).map(|m| m.len()).unwrap_or(0);
+                    let synced = base.iter().find(|(n, _)| *n == name).map(|(_, s)| *s).unwrap_or(0).min(cur);
+                    if cur > synced {
+                        let keep = synced + rng.range(0, cur - synced);
+                        if keep < cur {
+                            if let Ok(f) = std::fs::OpenOptions::new().write(true).open(&p) {
+                                let _ = f.set_len(keep);
+                                total.faults.inc("freezer_unsynced_tail_lost");
+                            }
+                        }
+                    }
+                }
+                let _ = std::fs::remove_file(&torn);
             }
             prev = if tip.is_empty() { prev } else { Some((tip, td)) };
             crashed = true;
@@ -283,7 +310,8 @@ fn main() {
                     let mut o = SegmentOut::default();
                     // not being able to open after a crash or restart is a property violation (C08)
                     if from > 0 {
-                        o.res.violation = Some(Violation { property: "C08".into(), class: "reopen_failed".into(), detail: e });
+                        let prop = if arg_value(&args, "--scenario").map(|p| read_scenario(&p).prop == "C10").unwrap_or(false) { "C10" } else { "C08" };
+                        o.res.violation = Some(Violation { property: prop.into(), class: "reopen_failed".into(), detail: e });
                     } else {
                         o.res.harness_error = Some(e);
                     }
